@@ -190,4 +190,72 @@ theorem unprocessed_can_flip_after_done :
     ((s.onFrame (.rst 1 7)).streams.map fun x => (x.term, x.unprocessed)) = [(some { err := none, status := some 13 }, true)] := by
   decide
 
+/-! ### the percent-decoder of `grpc-message` never indexes out of range
+
+`decodeLoop` ports `decodeGrpcMessageUnchecked` with every `msg[i]` / `msg[i+1:i+3]` as a bounds-checked
+read (`none` = Go's "index out of range" panic).  The correspondence run compares the decoded message of
+every trailers status with the real `Status().Message()`, over the whole escape grammar (all strings of
+length ≤ 4 over `%`, hex digits, a non-hex byte; longer random ones with every truncation). -/
+
+theorem decodeLoop_isSome (m : Bytes) : ∀ (fuel i : Nat) (acc : Bytes), (decodeLoop m fuel i acc).isSome = true := by
+  intro fuel
+  induction fuel with
+  | zero => intro i acc; rfl
+  | succ fuel ih =>
+    intro i acc
+    unfold decodeLoop
+    split
+    · rename_i hi
+      have h0 : m[i]? = some m[i] := List.getElem?_eq_getElem hi
+      rw [h0]
+      simp only []
+      split
+      · rename_i hc
+        have h2 : i + 2 < m.length := by simp at hc; exact hc.2
+        have h1 : i + 1 < m.length := by omega
+        rw [List.getElem?_eq_getElem h1, List.getElem?_eq_getElem h2]
+        simp only []
+        split <;> exact ih _ _
+      · exact ih _ _
+    · rfl
+
+/-- **The client never panics while decoding a server-chosen `grpc-message`** (model part): for every byte
+string the decoder's index accesses are in range. -/
+theorem decodeGrpcMessage_never_panics (m : Bytes) : ∃ d, decodeGrpcMessage m = some d := by
+  unfold decodeGrpcMessage
+  split
+  · exact ⟨_, rfl⟩
+  · split
+    · have := decodeLoop_isSome m (m.length + 1) 0 []
+      unfold decodeGrpcMessageUnchecked
+      cases h : decodeLoop m (m.length + 1) 0 [] with
+      | none => simp [h] at this
+      | some d => exact ⟨d, rfl⟩
+    · exact ⟨_, rfl⟩
+
+/-- the decoded message is never longer than the header value -/
+theorem decodeLoop_length (m : Bytes) : ∀ (fuel i : Nat) (acc d : Bytes), decodeLoop m fuel i acc = some d → i ≤ m.length →
+    d.length + i ≤ acc.length + m.length := by
+  intro fuel
+  induction fuel with
+  | zero => intro i acc d h hi; simp [decodeLoop] at h; subst h; omega
+  | succ fuel ih =>
+    intro i acc d h hi
+    unfold decodeLoop at h
+    split at h
+    · rename_i hlt
+      rw [List.getElem?_eq_getElem hlt] at h
+      simp only [] at h
+      split at h
+      · rename_i hc
+        have h2 : i + 2 < m.length := by simp at hc; exact hc.2
+        have h1 : i + 1 < m.length := by omega
+        rw [List.getElem?_eq_getElem h1, List.getElem?_eq_getElem h2] at h
+        simp only [] at h
+        split at h
+        · have := ih _ _ _ h (by omega); simp at this; omega
+        · have := ih _ _ _ h (by omega); simp at this; omega
+      · have := ih _ _ _ h (by omega); simp at this; omega
+    · simp at h; subst h; omega
+
 end GrpcProofs.C11
